@@ -61,5 +61,12 @@ func runG09(raw json.RawMessage, w *Writer) {
 			parsed = append(parsed, p)
 		}
 	})
-	w.Emit(Ev{"ev": "obus", "res": r, "obus": m["obus"], "each": each, "stream": ints(stream), "parsed": parsed})
+	// the header parser on nothing at all, and on an extension flag without the extension byte
+	emptyRes, cutRes := "ok", "ok"
+	guard(func() {
+		_, e0 := obu.ParseOBUHeader([]byte{})
+		_, e1 := obu.ParseOBUHeader([]byte{0x0c})
+		emptyRes, cutRes = outcome("ok", e0), outcome("ok", e1)
+	})
+	w.Emit(Ev{"ev": "obus", "res": r, "empty_res": emptyRes, "cut_res": cutRes, "obus": m["obus"], "each": each, "stream": ints(stream), "parsed": parsed})
 }
